@@ -85,9 +85,14 @@ def configs(d, base=None):
         for name, route, dd in devs:
             yield (name, route, merge(base, dd))
     if d >= 2:
+        def group(n):
+            # deviations of one leaf, or coupled deviations of one family ('scale:*', 'MIN_SEP:*', 'gmm:*'), are never combined with each other
+            return n.split(':')[0] if ':' in n.split('=')[0] else n.split('=')[0]
         for (n1, r1, d1), (n2, r2, d2) in itertools.combinations(devs, 2):
-            if n1.split('=')[0] == n2.split('=')[0]:
+            if group(n1) == group(n2):
                 continue
+            if {group(n1), group(n2)} == {'scale', 'SLICING_PRMS.height_scale_kwargs.min_range'}:
+                continue        # min_range only exists for the min-max mode
             if 'global' in (r1, r2) and r1 != r2:
                 # mixed routes: apply the global part globally, the other per call
                 yield (f'{n1} & {n2}', 'mixed', {'global': d1 if r1 == 'global' else d2, 'call': merge(base, d2 if r1 == 'global' else d1)})
